@@ -1454,6 +1454,7 @@ def build_unit(tpl_path, out_path, with_vac=True):
     out = []
     regions = []   # dict(name, kind(orig|vac), start_line, end_line, meta)
     extraction_log = []
+    missing_items = []
     line = 1
 
     def emit(text):
@@ -1473,7 +1474,16 @@ def build_unit(tpl_path, out_path, with_vac=True):
             regions.append({'name': meta['name'], 'kind': 'shellcheck', 'start': s, 'end': line - 1, 'item_kind': 'fn', 'src': '%s:%d' % (meta['file'], meta['line'])})
             extraction_log.append(meta)
             continue
-        text, log, meta = render_extract(c, vac=False)
+        try:
+            text, log, meta = render_extract(c, vac=False)
+        except Undecided as e_:
+            # a lifted statement / closure / block whose anchor is lost leaves the OTHER items of the unit decidable: the item is left out
+            # and the unit can end `fail` (another item's obligation failed) or `undecided` (nothing else failed), never `ok`
+            if not (c.lift_stmt is not None or c.lift is not None or c.lift_block is not None):
+                raise
+            missing_items.append('%s :: %s: %s' % (c.file, ' :: '.join(c.path), e_))
+            emit('// ---- item left out (anchor lost): %s ----\n' % str(e_).replace('\n', ' '))
+            continue
         s = line
         emit('// ---- extracted: %s :: %s (line %d, sha256 %s) ----\n' % (meta['file'], meta['path'], meta['line'], meta['sha256']))
         emit(text)
@@ -1498,7 +1508,7 @@ def build_unit(tpl_path, out_path, with_vac=True):
     for m in extraction_log:
         for d in m.get('degraded', []):
             degraded.append('%s: %s' % (m.get('name'), d))
-    return {'path': out_path, 'regions': regions, 'labels': labels, 'extraction_log': extraction_log, 'text': full, 'degraded': degraded}
+    return {'path': out_path, 'regions': regions, 'labels': labels, 'extraction_log': extraction_log, 'text': full, 'degraded': degraded, 'missing_items': missing_items}
 
 
 VERIF_FAIL_PATTERNS = [
@@ -1739,6 +1749,11 @@ def run_unit(tpl, workdir, seed=None, known_labels=()):
     if r['status'] == 'ok' and not obs:
         r['status'] = 'undecided'
         r['reason'] = 'no obligations generated'
+    if gen.get('missing_items'):
+        r['missing_items'] = gen['missing_items']
+        if r['status'] == 'ok':
+            r['status'] = 'undecided'
+            r['reason'] = 'item(s) left out, anchor lost: ' + '; '.join(gen['missing_items'])[:400]
     return r
 
 
